@@ -56,3 +56,6 @@ pub fn completion_words() -> Vec<String> {
     completion_words.extend(parser_tree_converter::completion_words());
     completion_words
 }
+#[cfg(kani)]
+#[path = "/verif/kani/parsing.rs"]
+mod verif_kani;
